@@ -403,6 +403,11 @@ func (fr *Frame) applyContract(ct *Contract, sig *types.Signature, invoke bool, 
 	na := fx.freshComp("G|alloc")
 	fx.assert("(>= " + na + " " + allocPre + ")")
 	st.set("G|alloc", na)
+	for i, n := range resultNames(ct, sig) {
+		if _, taken := pt[n]; !taken {
+			pt[n] = sig.Results().At(i).Type()
+		}
+	}
 	for _, m := range ct.Modifies {
 		fr.havocMod(m, pt, vars, pre, st, allocPre)
 	}
@@ -464,6 +469,11 @@ func (fr *Frame) havocMod(m string, pt map[string]types.Type, vars map[string]Va
 		for _, me := range fr.modComps(m, pt) {
 			frameBelow(me.key)
 		}
+		return
+	case strings.HasPrefix(m, "heap("):
+		k := strings.TrimSuffix(strings.TrimPrefix(m, "heap("), ")")
+		fx.regComp(k, "(Array Int Int)") // heap(...) entries name Int-valued components
+		st.set(k, fx.freshComp(k))
 		return
 	case strings.HasPrefix(m, "bigval("):
 		e := strings.TrimSuffix(strings.TrimPrefix(m, "bigval("), ")")
